@@ -15,7 +15,8 @@ MAP = {
          ("ZipLongest", ["zip_longest_trace", "zip_longest_yields"]),
          ("Merge", ["merge_spec", "merge_yields"]), ("MergeSorted", ["spec_merge_perm", "spec_merge_sorted"]),
          ("PylEquivIter", ["iter_sources_supported", "src_filter_ok", "src_enumerate_ok", "src_map_ok", "src_takewhile_ok", "src_dropwhile_ok", "src_filterfalse_ok",
-                           "src_starmap_ok", "src_pairwise_ok", "src_accumulate_ok", "src_islice_ok", "src_compress_ok"])],
+                           "src_starmap_ok", "src_pairwise_ok", "src_accumulate_ok", "src_islice_ok", "src_compress_ok"]),
+         ("PylEquivZip", ["zip_sources_supported", "src_zip_inner_ok", "src_zip_inner_strict_ok", "src_zip_ok", "src_batched_ok"])],
  "C02": [("MinMax", ["min_max_spec", "spec_min_first_minimal", "spec_max_first_maximal", "spec_min_max_type_error", "spec_min_max_value_error"]),
          ("AllAny", ["all_spec", "any_spec"]), ("Folds", ["sum_spec", "list_spec", "tuple_spec", "set_spec", "dict_spec", "reduce_spec"]),
          ("Sorted", ["sorted_spec", "spec_sorted_perm", "spec_sorted_sorted", "spec_sorted_stable", "sorted_type_error_exact", "sorted_outcome_cases"]),
@@ -33,7 +34,8 @@ MAP = {
          ("Merge", ["merge_trace"]), ("AllAny", ["all_spec", "any_spec"]), ("RegularTools", ["fault_prefix"]),
          ("PylEquivAgg", ["agg_sources_supported", "src_all_ok", "src_any_ok", "src_min_max_ok", "src_reduce_ok", "src_sum_ok"]),
          ("PylEquivIter", ["iter_sources_supported", "src_filter_ok", "src_enumerate_ok", "src_map_ok", "src_takewhile_ok", "src_dropwhile_ok",
-                           "src_filterfalse_ok", "src_starmap_ok", "src_pairwise_ok", "src_accumulate_ok", "src_islice_ok", "src_compress_ok"])],
+                           "src_filterfalse_ok", "src_starmap_ok", "src_pairwise_ok", "src_accumulate_ok", "src_islice_ok", "src_compress_ok"]),
+         ("PylEquivZip", ["zip_sources_supported", "src_zip_inner_ok", "src_zip_inner_strict_ok", "src_zip_ok", "src_batched_ok"])],
  "C16": [("GroupBy", ["groupby_refines", "stale_group_stops", "group_items_in_order", "group_items_no_duplicates", "group_numbers_sequential",
                      "groupby_close_releases", "closed_groupby_stops_partial", "closed_groupby_stops_refuted"])],
  "C10": [("LruKeys", ["key_classes", "key_classes_explicit"]),
